@@ -1,7 +1,7 @@
 """Which properties are claimed, at what level, and why the others are not."""
 
 HOOK_COMMITS = []
-FIX_COMMITS = ["5a7ea92", "968480f", "81560c0", "dd9d1dc", "30a1d27", "d05b8f1"]
+FIX_COMMITS = ["5a7ea92", "968480f", "81560c0", "dd9d1dc", "30a1d27", "d05b8f1", "483ac36", "3ec4792", "3944e47", "ae7798f"]
 
 _PURE = "pure function of its arguments (no storage, stream, clock, retry, schedule or fault in the statement or the anchored code): deciding it means generating inputs, which is not deterministic simulation (DESIGN.md section 6)"
 
@@ -18,6 +18,60 @@ NOT_APPLICABLE = {
 NOT_BUILT = {}
 
 CLAIMED = {
+    "C02": {
+        "level": "exploration",
+        "text": "Seeded DAG histories (6-30 revisions, 1-4 branches: merges by per-file decisions, criss-cross, revert-after-merge, identical parallel changes, cherry-picks, kind/rename/exec changes, resurrected file ids, ghost parents) committed through real working trees into 2a, pack-0.92 and rich-root-pack repositories (one shared repository or one per branch joined by fetch, with pack() and re-opens). Every stored entry is compared with a model of the property's rule: last-changed revision, exact ordered per-file parents, check() clean including unreferenced versions.",
+        "note": "Per-file heads as pack repositories define them; knit formats are out of scope (they deviate after a file id is deleted and re-added); pack-0.92 root excluded; merged trees are model-computed.",
+        "technique": "deterministic simulation: model-based history exploration on simulated stores, per-entry model oracle plus repository check",
+    },
+    "C03": {
+        "level": "exploration",
+        "text": "Seeded (history with merges, ghosts and signatures; source and target formats among 2a, 1.9, 1.9-rich-root, pack-0.92, rich-root-pack, knit; pre-populated sub-DAG via a direct or intermediate route; stacked target or not; fetch, fetch-all, pull, push or sprout; find_ghosts; optional InterDifferingSerializer; optional transport error on the target). Oracles: completeness, model equality, testament equality source vs target, per-file parents, signatures, check(), old-or-new plus retry after an injected error, byte-level and seam-level idempotency of the repeated operation.",
+        "note": "Local sim stores only (the smart-server variant is covered by C32/C33 runs); no fault injection for knit targets; the target's check() is required only when the source's own check() is clean.",
+        "technique": "deterministic simulation: seeded configuration and history exploration with error injection at the transport seam, snapshot, monitor and differential (source vs target) oracles",
+    },
+    "C08": {
+        "level": "exploration",
+        "text": "Seeded stacking histories (base history, stacking point and method, then commits, merges of later base revisions, base growth, third-repository work brought in by pull, fetch or push, stacked clones, pack and re-open) on 2a, 1.9 and 1.9-rich-root. After every operation the stacked branch is opened alone: own revisions readable and diffable against parents, check() clean, and with fallbacks detached the parent inventories and new texts are present.",
+        "note": "A refused ghost-parent commit is not judged; local transports only; one defect fixed in /repo (per-file heads ignored the fallback).",
+        "technique": "deterministic simulation: seeded operation histories over simulated stores, fresh-process oracle with fallbacks attached and detached",
+    },
+    "C41": {
+        "level": "exploration",
+        "text": "Cross-invariant over worlds built from one model history (native 2a, pack-0.92 and rich-root-pack with different pack and re-open points, fetch copies into other formats, and sibling worlds that change exactly one attested field of one revision). Testament, StrictTestament and StrictTestament3 texts are equal if and only if the model's attested tuples are equal.",
+        "note": "Claimed part only: determinism with respect to format, storage order and history; sensitivity as far as 17 kinds of sibling perturbation reach. Version 1 does not attest exec bits or last-changed revisions by format definition.",
+        "technique": "deterministic simulation: differential testing across simulated repositories against a model of the attested tuple",
+    },
+    "C09": {
+        "level": "exploration",
+        "text": "Seeded model-generated sequences of 5-25 working-tree operations (disk edits, add/smart_add/mkdir/remove/rename_one/move/commit/revert/reopen/lock cycles, plus operations that must be refused) on a real 2a/dirstate or git/index tree; after every operation disk, versioned paths, kinds, texts, exec bits, file ids, iter_changes(basis) x4, unknowns/extras, parents and basis are compared with an abstract versioned-FS model; re-open must read back the identical state. Sampling, not proof.",
+        "note": "Operations decided by conflict resolution or rename heuristics are not generated; states that hit the recorded open findings (treesim.GUARDS) are explored only in the 20% of runs that lift the guard; stat-cache paths are not asserted; one in-process world per run.",
+        "technique": "deterministic simulation: model-guided operation generation against a reference model (MTree), per-step state comparison, bzr control files on the storage seam, seeded replay + ddmin",
+    },
+    "C10": {
+        "level": "exploration",
+        "text": "At every k-th step of C09-style runs and on revision-tree pairs of the run's history, InterTree.get(a,b).iter_changes (InterDirStateTree / InterCHKRevisionTree / InterGitTrees) is compared with the generic InterInventoryTree.iter_changes for 4 filters x include_unchanged x want_unversioned: equal sets, no duplicates, filtered results applicable to the source (parents present), unfiltered result applied to the source snapshot = target snapshot.",
+        "note": "For git only self-consistency is checked (single implementation); representation differences listed in ASSUMPTIONS are normalised; differences that are recorded open findings are removed while their guard is on.",
+        "technique": "deterministic simulation: differential comparison of optimised vs generic tree comparison on states reached by a simulated history, delta-application oracle",
+    },
+    "C24": {
+        "level": "exploration",
+        "text": "Seeded merge_to calls over bzr (2a on a sim store), MemoryTags and local git tag stores, bound targets, overwrite/selector/ignore_master, with err_before/crash at every mutating store op of the merge; dict model of the reconciliation rules for stored dicts and returned (updates, conflicts); fresh-object read-back; set/delete/rename round trips. Sampling.",
+        "note": "git names/values restricted (valid refs, commits present, lightweight); git stores are not behind the seam; a bound target and its master are reconciled separately.",
+        "technique": "deterministic simulation: model-based exploration with fault injection at the transport seam and fresh-process read-back",
+    },
+    "C49": {
+        "level": "exploration",
+        "text": "Seeded edit/lookup scripts over LocationStack-like stacks on sim stores (value grammar with quotes, commas, #, =, newlines, line-break characters, unicode, lists; path/glob section grammar, ignore_parents, appendpath, relpath) against a dict model; 2-3 concurrent writers of one LockableIniFileStore file pre-empted at every store op with cause attribution at the seam; crash points inside save with a fresh reader. Sampling.",
+        "note": "Matching rules are checked only via this workload; option and section name alphabets narrowed (see ASSUMPTIONS); open findings for the quoting layer; two defects fixed in /repo.",
+        "technique": "deterministic simulation: model-based exploration, seeded scheduler over store ops, crash injection",
+    },
+    "C51": {
+        "level": "exploration",
+        "text": "Seeded DAG histories in a shared 2a repo on a sim store; plans computed as cmd_rebase does (seeded stop/onto/start, skip_full_merged) and by generate_transpose_plan against ancestry models (domain, parent topology, uniqueness); marshalling round trips pure and through RebaseState1 on a seamed checkout; rebase() with CommitBuilderRevisionRewriter uninterrupted vs crash/err at a seeded store op then resumed from the stored plan, compared revision by revision. Sampling.",
+        "note": "Replay by commit builder, not the working-tree merger; inapplicable replays skipped; with explicit start only the relation to start is constrained; one open finding (skip_full_merged).",
+        "technique": "deterministic simulation: model-based plan oracle, crash/error injection at the transport seam, fresh-process resume, uninterrupted-vs-resumed equivalence",
+    },
     "C37": {
         "level": "exploration",
         "text": "Seeded sequences (3-10) of set_if_equals/remove_if_equals/add_if_new with current/stale/previous/zero/None expected values over refs absent/loose/packed/both/symbolic on memory and local-path stores, each call checked (result + state via a fresh container) against a CAS model; and 2 updaters x 1-3 calls pre-empted at every store op, history + final state checked for linearizability by brute force. Sampling, not proof.",
